@@ -40,8 +40,7 @@ CfgOf(x) ==
   [mode |-> x.mode, states |-> S, multi |-> SetOf(x.multi), tmulti |-> SetOf(x.tmulti),
    flat |-> x.flat, local |-> x.local, addonly |-> x.addonly, slow |-> x.slow,
    plain |-> x.plain, gated |-> x.gated,
-   addNames |-> [s \in S |-> SetOf(x.addnames[CHOOSE i \in 1..Len(x.states) : x.states[i] = s])],
-   remNames |-> [s \in S |-> SetOf(x.remnames[CHOOSE i \in 1..Len(x.states) : x.states[i] = s])]]
+   pipes |-> {[b |-> p.b, s |-> p.s, add |-> SetOf(p.add), rem |-> SetOf(p.rem)] : p \in SetOf(x.pipes)}]
 
 Stat0 == [cases |-> 0, src |-> 0, fwd |-> 0, inline |-> 0, dlv |-> 0, drop |-> 0, ttx |-> 0,
           quiet |-> 0, reorder |-> 0]
@@ -97,10 +96,16 @@ EvSrc ==
 EvH ==
   /\ Line.ev = "h"
   /\ LET x == Line
-         cand == {h \in srcPend : HName(h) = x.h}
-         known == cand # {}
-         hp == IF known THEN CHOOSE h \in cand : TRUE
-               ELSE [op |-> x.op, st |-> "?", sts |-> SetOf(x.sts), args |-> FALSE]
+         named == {h \in srcPend : HName(h) = x.h}
+         \* several binding calls may bind the same handler name (one source state
+         \* bound into two target states): the invocation is told by what it
+         \* forwarded / checked
+         exactm == {h \in named : h.sts = SetOf(x.sts)}
+         known == named # {}
+         hp == IF exactm # {} THEN CHOOSE h \in exactm : TRUE
+               ELSE IF known THEN CHOOSE h \in named : TRUE
+               ELSE [op |-> x.op, st |-> "?", b |-> 0, sts |-> SetOf(x.sts), args |-> FALSE]
+         cand == IF known THEN {hp} ELSE {}
          o == Outcome(cfg, tgt, inflight, tq, cur, hp)
          forwarded == x.fwd # "none"
          flatlike == cfg.flat \/ cfg.mode = "any"
